@@ -108,6 +108,19 @@ func (t *trans) resolveType(s string) vtype {
 }
 
 func (t *trans) goType(s string) types.Type {
+	// package-qualified names of module packages (types.X, process.X): evaluate in that package
+	for path, sp := range t.c.w.pkgs {
+		if !t.c.w.inModule(path) {
+			continue
+		}
+		q := sp.Pkg.Name() + "."
+		if strings.Contains(s, q) {
+			tv, err := types.Eval(token.NewFileSet(), sp.Pkg, token.NoPos, strings.ReplaceAll(s, q, ""))
+			if err == nil && tv.IsType() {
+				return tv.Type
+			}
+		}
+	}
 	p := t.c.w.pkgs[t.pkg]
 	var tp *types.Package
 	if p != nil {
@@ -413,13 +426,21 @@ func (t *trans) call(x *cCall) (string, vtype) {
 		return t.expr(x.Args[i])
 	}
 	typeArg := func(i int) types.Type {
-		id, ok := x.Args[i].(*cIdent)
-		if !ok {
+		name := ""
+		switch a := x.Args[i].(type) {
+		case *cIdent:
+			name = a.Name
+		case *cField:
+			if q, ok := a.X.(*cIdent); ok {
+				name = q.Name + "." + a.F
+			}
+		}
+		if name == "" {
 			t.fail("%s: argument %d must be a type name", x.Fn, i)
 		}
-		gt := t.goType(id.Name)
+		gt := t.goType(name)
 		if gt == nil {
-			t.fail("%s: unknown type %s", x.Fn, id.Name)
+			t.fail("%s: unknown type %s", x.Fn, name)
 		}
 		return gt
 	}
@@ -507,6 +528,14 @@ func (t *trans) call(x *cCall) (string, vtype) {
 			return "mk_" + sn, vtype{sn, gt}
 		}
 		return fmt.Sprintf("(mk_%s %s)", sn, strings.Join(fs, " ")), vtype{sn, gt}
+	case "zeroArr": // zeroArr(K, V): the array mapping every key to V's zero value
+		kt := t.resolveType(x.Args[0].(*cIdent).Name)
+		vt := t.resolveType(x.Args[1].(*cIdent).Name)
+		if vt.gt == nil {
+			t.fail("zeroArr: value type must be a Go type")
+		}
+		srt := fmt.Sprintf("(Array %s %s)", kt.sort, vt.sort)
+		return fmt.Sprintf("((as const %s) %s)", srt, c.zero(vt.gt)), vtype{srt, nil}
 	case "store":
 		a, vt := arg(0)
 		k, _ := arg(1)
